@@ -356,6 +356,18 @@ func decideSub(p *Prog, fn *ssa.Function, bo *ssa.BinOp) usubResult {
 			}
 		}
 	}
+	// facts established through inlined boolean helpers (contains(), …): compare canonical terms in every disjunct
+	{
+		A, B := strings.TrimPrefix(term(stripConv(a)), "&"), strings.TrimPrefix(term(stripConv(b)), "&")
+		if !strings.Contains(A, "φ") && !strings.Contains(B, "φ") {
+			d := p.mustHoldAt(bo)
+			forms := [][]string{{"(" + A + " >= " + B + ")"}, {"(" + A + " > " + B + ")"}, {"(" + B + " <= " + A + ")"}, {"(" + B + " < " + A + ")"},
+				{"^!", "(" + A + " < " + B + ")"}, {"^!", "(" + B + " > " + A + ")"}}
+			if ok, _ := everyDisjunctHas(d, forms...); ok && len(d) > 0 && !(len(d) == 1 && len(d[0]) == 0) {
+				return usubResult{true, "implied by an inlined boolean helper on every path (" + A + " ≥ " + B + ")"}
+			}
+		}
+	}
 	// alignment: a > f (fact) with a and f both k-aligned and b == k  ⇒ a ≥ k
 	if kb, ok := constUint(stripConv(b)); ok && kb > 0 && alignedTo(a, kb, 0) {
 		for _, f := range factsAt(bo) {
